@@ -88,11 +88,20 @@ def build(r):
     return fs, pref
 
 
+_BETWEEN = [0]
+
+
 def check(fs, pref):
     text = str(fs)
     p = Parser()
     if p.parse(text.encode("utf-8")) is not True:
         return "rendered set is rejected: %s" % p.error, text
+    # other parsing may happen between parsing a saved script and loading it (several scripts parsed first, loaded later)
+    _BETWEEN[0] += 1
+    if _BETWEEN[0] % 2 == 0:
+        Parser().parse(b"keep;")
+    elif _BETWEEN[0] % 3 == 0:
+        Parser().parse(b'require ["envelope", "regex"]; if envelope :regex "from" "x" { keep; }')
     fs2 = FiltersSet("t", pref[0], pref[1])
     fs2.from_parser_result(p)
     a = [(f["name"], f["enabled"], f.get("description") or "") for f in fs.filters]
